@@ -146,7 +146,7 @@ func VerifC16_D_enrich_duplicates() {
 func VerifC16_D_merge_order() {
 	mkPkg := func(slot string) *model.Package {
 		p := &model.Package{Path: "p", Targets: map[label.TargetLabel]*model.Target{}, Aliases: map[label.TargetLabel]*model.Alias{}}
-		name := []string{"x", "y"}[sym.Choice("name_"+slot, 2)]
+		name := []string{"x", "y", "v"}[sym.Choice("name_"+slot, 3)]
 		l := label.TL("p", name)
 		if sym.Choice("alias_"+slot, 2) == 1 {
 			p.Aliases[l] = &model.Alias{Label: l, Actual: label.TL("p", "z"), SourceFilePath: slot}
